@@ -46,40 +46,39 @@ def complete(k):
     return acc
 
 
+def _bits_to_hex(flags):
+    """Boolean vector -> hex string of the integer whose bit i is flags[i] (linear time)."""
+    flags = np.asarray(flags, dtype=bool)
+    if not flags.any():
+        return "0"
+    packed = np.packbits(flags, bitorder="little")
+    return "%x" % int.from_bytes(packed.tobytes(), "little")
+
+
+def _hex_to_bits(hx, n):
+    """Inverse of _bits_to_hex: boolean vector of length n (linear time)."""
+    value = int(hx, 16)
+    raw = value.to_bytes((n + 7) // 8 + 1, "little")
+    return np.unpackbits(np.frombuffer(raw, dtype=np.uint8), bitorder="little")[:n].astype(bool)
+
+
 def acc_to_hex(acc):
-    acc = np.asarray(acc)
-    bits = 0
-    flat = (acc.reshape(-1) >= 0)
-    for i in np.nonzero(flat)[0].tolist():
-        bits |= 1 << i
-    return "%x" % bits
+    return _bits_to_hex(np.asarray(acc).reshape(-1) >= 0)
 
 
 def hex_to_acc(k, hx):
     n = 4 ** k
-    bits = int(hx, 16)
-    acc = -np.ones((n, 4), dtype=int)
-    i = 0
-    while bits:
-        if bits & 1:
-            v, j = divmod(i, 4)
-            acc[v, j] = (v * 4 + j) % n
-        bits >>= 1
-        i += 1
-    return acc
+    flags = _hex_to_bits(hx, 4 * n).reshape(n, 4)
+    full = (np.arange(n)[:, None] * 4 + np.arange(4)[None, :]) % n
+    return np.where(flags, full, -1).astype(int)
 
 
 def mask_to_hex(mask):
-    bits = 0
-    for i, m in enumerate(mask):
-        if m:
-            bits |= 1 << i
-    return "%x" % bits
+    return _bits_to_hex(np.asarray(mask) != 0)
 
 
 def hex_to_mask(k, hx, dtype=bool):
-    bits = int(hx, 16)
-    return np.array([(bits >> i) & 1 for i in range(4 ** k)], dtype=dtype)
+    return _hex_to_bits(hx, 4 ** k).astype(dtype)
 
 
 def out_degrees(acc):
